@@ -195,6 +195,8 @@ def run(ck: common.Check):
             elif st == "mismatch":
                 ck.case("cexec", (r["uid"], v["variant"], "mismatch"), True, None, "mismatch")
                 key = "cexec:%s:%s" % (tagkey, v["kind"])
+                if lab.startswith("corpus:"):  # a corpus program is a regression witness (repaired defects, clause examples)
+                    key = "cexec:regress:%s:%s:%s" % (lab[len("corpus:"):], tagkey, v["kind"])
                 rep = dict(v["replay"], unit=lab, unit_seed=r["seed"])
                 ck.violation(key, rep, "generated C and reference semantics (Core.Sem) disagree: %s" % v["detail"])
                 ck.log("MISMATCH %s [%s] %s: %s" % (lab, v["variant"], tagkey, v["detail"]))
@@ -202,6 +204,8 @@ def run(ck: common.Check):
                 cls = classify_build_failure(v["detail"])
                 if cls == "other":
                     key = "cbuild:other:%s" % tagkey
+                    if lab.startswith("corpus:"):
+                        key = "cbuild:regress:%s:%s" % (lab[len("corpus:"):], tagkey)
                     rep = dict(v["replay"], unit=lab, unit_seed=r["seed"])
                     first = next((l for l in v["detail"].splitlines() if "error" in l), v["detail"][:200])
                     ck.violation(key, rep, "the generated C is rejected by the C compiler: %s" % first.strip())
